@@ -48,6 +48,12 @@ const (
 	OpBVSLt
 	OpBVSLe
 	OpBVNeg
+	OpBVAnd
+	OpBVOr
+	OpBVXor
+	OpBVShl
+	OpBVAshr
+	OpBVLshr
 	// Int (internal)
 	OpIntAdd
 	OpIntSub
@@ -83,6 +89,7 @@ var opNames = map[Op]string{
 	OpAnd: "and", OpOr: "or", OpNot: "not", OpIte: "ite", OpEq: "=",
 	OpBVAdd: "bvadd", OpBVSub: "bvsub", OpBVMul: "bvmul", OpBVSDiv: "bvsdiv", OpBVSRem: "bvsrem",
 	OpBVSLt: "bvslt", OpBVSLe: "bvsle", OpBVNeg: "bvneg",
+	OpBVAnd: "bvand", OpBVOr: "bvor", OpBVXor: "bvxor", OpBVShl: "bvshl", OpBVAshr: "bvashr", OpBVLshr: "bvlshr",
 	OpIntAdd: "+", OpIntSub: "-", OpIntLt: "<", OpIntLe: "<=",
 	OpConcat: "str.++", OpSubstr: "str.substr", OpIndexOf: "str.indexof", OpStrLen: "str.len",
 }
@@ -1054,6 +1061,30 @@ func foldBV(op Op, a, b int64) *Term {
 		return Bool(a < b)
 	case OpBVSLe:
 		return Bool(a <= b)
+	case OpBVAnd:
+		return BV(a & b)
+	case OpBVOr:
+		return BV(a | b)
+	case OpBVXor:
+		return BV(a ^ b)
+	case OpBVShl:
+		if b < 0 || b > 63 {
+			return BV(0)
+		}
+		return BV(a << uint(b))
+	case OpBVAshr:
+		if b < 0 || b > 63 {
+			if a < 0 {
+				return BV(-1)
+			}
+			return BV(0)
+		}
+		return BV(a >> uint(b))
+	case OpBVLshr:
+		if b < 0 || b > 63 {
+			return BV(0)
+		}
+		return BV(int64(uint64(a) >> uint(b)))
 	}
 	panic("foldBV")
 }
@@ -1087,6 +1118,17 @@ func BVBin(op Op, a, b *Term) *Term {
 		}
 		if b.op == OpIte {
 			return Or(And(b.args[0], BVBin(op, a, b.args[1])), And(Not(b.args[0]), BVBin(op, a, b.args[2])))
+		}
+		// constant vs length of a string whose constant parts already decide the comparison
+		if a.op == OpConst && b.op == OpInt2BV && len(b.args) == 1 && b.args[0].op == OpStrLen {
+			if m := strMinLen(b.args[0].args[0]); (op == OpBVSLt && a.i < m) || (op == OpBVSLe && a.i <= m) {
+				return True
+			}
+		}
+		if b.op == OpConst && a.op == OpInt2BV && len(a.args) == 1 && a.args[0].op == OpStrLen {
+			if m := strMinLen(a.args[0].args[0]); (op == OpBVSLt && m >= b.i) || (op == OpBVSLe && m > b.i) {
+				return False
+			}
 		}
 		// ranged var vs constant
 		if a.op == OpVar && a.ranged && b.op == OpConst {
@@ -1294,4 +1336,37 @@ func (t *Term) str(depth int) string {
 	}
 	sb.WriteString(")")
 	return sb.String()
+}
+
+
+// strMinLen: a lower bound of the length of a string term (sum of the shortest constants of its parts).
+func strMinLen(s *Term) int64 {
+	switch s.op {
+	case OpConst:
+		return int64(len(s.s))
+	case OpCases:
+		m := int64(-1)
+		for _, c := range s.cases {
+			if n := int64(len(c.V.s)); m < 0 || n < m {
+				m = n
+			}
+		}
+		if m < 0 {
+			return 0
+		}
+		return m
+	case OpConcat:
+		var n int64
+		for _, a := range s.args {
+			n += strMinLen(a)
+		}
+		return n
+	case OpIte:
+		a, b := strMinLen(s.args[1]), strMinLen(s.args[2])
+		if a < b {
+			return a
+		}
+		return b
+	}
+	return 0
 }
